@@ -329,16 +329,7 @@ class Parser:
         tok = stream.next_token()
         expr = self.parse_filter_expression(stream)
 
-        if isinstance(expr, FunctionExtension):
-            func = self.env.function_extensions.get(expr.name)
-            if (
-                func
-                and isinstance(func, FilterFunction)
-                and func.return_type == ExpressionType.VALUE
-            ):
-                raise JSONPathTypeError(
-                    f"result of {expr.name}() must be compared", token=tok
-                )
+        self._raise_for_uncompared_value_function(expr, tok)
 
         if isinstance(expr, FilterExpressionLiteral):
             raise JSONPathSyntaxError(
@@ -404,13 +395,9 @@ class Parser:
             TokenType.CURRENT,
             TokenType.FUNCTION,
         )
-        return PrefixExpression(
-            tok,
-            operator="!",
-            right=self.parse_filter_expression(
-                stream, precedence=self.PRECEDENCE_PREFIX
-            ),
-        )
+        right = self.parse_filter_expression(stream, precedence=self.PRECEDENCE_PREFIX)
+        self._raise_for_uncompared_value_function(right, tok)
+        return PrefixExpression(tok, operator="!", right=right)
 
     def parse_infix_expression(
         self, stream: TokenStream, left: Expression
@@ -435,6 +422,9 @@ class Parser:
             self._raise_for_non_comparable_function(left, tok)
             self._raise_for_non_comparable_function(right, tok)
             return ComparisonExpression(tok, left, operator, right)
+
+        self._raise_for_uncompared_value_function(left, tok)
+        self._raise_for_uncompared_value_function(right, tok)
 
         if isinstance(left, FilterExpressionLiteral):
             raise JSONPathSyntaxError(
@@ -465,6 +455,7 @@ class Parser:
             expr = self.parse_infix_expression(stream, expr)
 
         stream.expect(TokenType.RPAREN)
+        self._raise_for_uncompared_value_function(expr, stream.current)
         return expr
 
     def parse_root_query(self, stream: TokenStream) -> Expression:
@@ -692,6 +683,22 @@ class Parser:
 
     def _is_low_surrogate(self, codepoint: int) -> bool:
         return codepoint >= 0xDC00 and codepoint <= 0xDFFF
+
+    def _raise_for_uncompared_value_function(
+        self, expr: Expression, token: Token
+    ) -> None:
+        # The result of a ValueType function is not a logical value. It must
+        # be compared wherever a test expression is expected.
+        if isinstance(expr, FunctionExtension):
+            func = self.env.function_extensions.get(expr.name)
+            if (
+                func
+                and isinstance(func, FilterFunction)
+                and func.return_type == ExpressionType.VALUE
+            ):
+                raise JSONPathTypeError(
+                    f"result of {expr.name}() must be compared", token=token
+                )
 
     def _raise_for_non_comparable_expression(
         self, expr: Expression, token: Token
